@@ -23,7 +23,7 @@ pub const ASSUMPTIONS: &[&str] = &[
     "the order of results is compared within each module; across modules the collection order follows the iteration order of a std HashMap keyed by module name, which `aiken check` re-groups by module before display",
 ];
 
-pub const RULE: &str = "generated on-disk projects of one or two library modules with 2-6 module constants of list / pairs / tuple / option / bytearray / nested types, shared generic helpers and a shared fuzzer library, and 4-14 unit and property tests (passing, failing, `fail`, duplicates of one body) each referring to 1-3 of the constants; `Project::check` on rayon pools of 1 and of two other sizes out of {2, 3, 4, 8, 16}, plus three tests run alone by exact match. Non-trivial = at least two tests refer to the same constant, the audited graph has at least 100 Rc nodes, and at least one test fails (so that the assertion path after the parallel section runs); distinct by project source.";
+pub const RULE: &str = "generated on-disk projects of one or two library modules with 2-6 module constants of list / pairs / tuple / option / bytearray / nested types, shared generic helpers (two of them with an `expect` pattern, whose failure message is generated code shared by every caller) and a shared fuzzer library, and 4-14 unit and property tests (passing, failing, `fail`, duplicates of one body) each referring to 1-3 of the constants; `Project::check` on rayon pools of 1 and of two other sizes out of {2, 3, 4, 8, 16}, plus three tests run alone by exact match. Non-trivial = at least two tests refer to the same constant, the audited graph has at least 100 Rc nodes, and at least one test fails (so that the assertion path after the parallel section runs); distinct by project source.";
 
 // ------------------------------------------------------------------ the audit (hook H2)
 
@@ -281,6 +281,16 @@ pub fn pair_of_small() -> Fuzzer<(Int, Int)> {
   }
 }
 
+pub fn first(xs: List<Int>) -> Int {
+  expect [head, ..] = xs
+  head
+}
+
+pub fn unwrap(o: Option<Int>) -> Int {
+  expect Some(n) = o
+  n
+}
+
 pub fn sum(xs: List<Int>) -> Int {
   when xs is {
     [] -> 0
@@ -316,7 +326,7 @@ fn gen_constant(src: &mut Src, i: usize) -> K {
         0 => {
             let xs: Vec<i64> = (0..1 + src.below(5)).map(|_| small(src)).collect();
             let lit = format!("[{}]", xs.iter().map(|x| x.to_string()).collect::<Vec<_>>().join(", "));
-            K { uses: vec![(format!("sum({name})"), xs.iter().sum()), (format!("len({name})"), xs.len() as i64)], name, ty: "List<Int>", literal: lit }
+            K { uses: vec![(format!("sum({name})"), xs.iter().sum()), (format!("len({name})"), xs.len() as i64), (format!("first({name})"), xs[0])], name, ty: "List<Int>", literal: lit }
         }
         1 => {
             let xs: Vec<(i64, u8)> = (0..1 + src.below(4)).map(|_| (small(src), src.below(256) as u8)).collect();
@@ -338,7 +348,7 @@ fn gen_constant(src: &mut Src, i: usize) -> K {
         }
         5 => {
             let a = small(src);
-            K { uses: vec![(format!("when {name} is {{\n      Some(n) -> n\n      None -> 0\n    }}"), a)], name, ty: "Option<Int>", literal: format!("Some({a})") }
+            K { uses: vec![(format!("when {name} is {{\n      Some(n) -> n\n      None -> 0\n    }}"), a), (format!("unwrap({name})"), a)], name, ty: "Option<Int>", literal: format!("Some({a})") }
         }
         _ => {
             let xs: Vec<(Vec<u8>, i64)> = (0..1 + src.below(3)).map(|_| (vec![src.below(256) as u8; 1 + src.below(3)], small(src))).collect();
@@ -364,7 +374,7 @@ fn gen_project(src: &mut Src) -> Generated {
     for k in &ks {
         a.push_str(&format!("\npub const {}: {} = {}\n", k.name, k.ty, k.literal));
     }
-    let mut b = format!("use aiken/builtin\nuse a.{{{}, len, pair_of_small, small, sum}}\n", ks.iter().map(|k| k.name.clone()).collect::<Vec<_>>().join(", "));
+    let mut b = format!("use aiken/builtin\nuse a.{{{}, first, len, pair_of_small, small, sum, unwrap}}\n", ks.iter().map(|k| k.name.clone()).collect::<Vec<_>>().join(", "));
     let nt = 4 + src.below(11);
     let mut used = vec![0usize; nk];
     let mut test_names = vec![];
